@@ -216,7 +216,8 @@ func main() {
 	peer = newPeer(addrA, addrB, cert, roots)
 	w = lib.NewWriter(a.Out)
 	defer w.Close()
-	r := lib.NewRng(a.Seed)
+	// lib.NewRng(k+1) is lib.NewRng(k) advanced by one draw: fork so that seeds give unrelated streams
+	r := lib.NewRng(a.Seed).Fork()
 	if a.Replay != "" {
 		for _, c := range lib.ReplayLines(a.Replay) {
 			switch c[0] {
@@ -235,7 +236,7 @@ func main() {
 		}
 		return
 	}
-	n := 1500
+	n := 2500
 	if a.Tier == "thorough" {
 		n = 12000
 	}
